@@ -677,6 +677,18 @@ func templateCheck(rep *hv.Report, r *hv.Rng, s string) {
 		rep.Fail(hv.Failure{Kind: "template-mode-differs", Detail: fmt.Sprintf("json: %s [%s]  native template: %s [%s]  content %q", a, summaries(d1), b, summaries(d2), s), Input: lit})
 		rep.Hist("template:differs")
 	}
+	// the same content as a property NAME: in full-expression mode names are templates too
+	if !d2.HasErrors() && v2.IsKnown() && !v2.IsNull() && v2.Type() == cty.String {
+		kexpr, kd := hcljson.ParseExpression([]byte("{"+lit+":1}"), "t.json")
+		if !kd.HasErrors() {
+			kv, kvd := kexpr.Value(ctx)
+			want := hv.DumpVal(cty.ObjectVal(map[string]cty.Value{v2.AsString(): cty.NumberIntVal(1)}))
+			if got := hv.DumpVal(kv); kvd.HasErrors() || got != want {
+				rep.Fail(hv.Failure{Kind: "template-mode-differs", Detail: fmt.Sprintf("as a property name: json: %s [%s]  want %s  content %q", got, summaries(kvd), want, s), Input: "{" + lit + ":1}"})
+			}
+			rep.Hist("template:as-name")
+		}
+	}
 	// and in literal mode the content is untouched
 	v0, d0 := expr.Value(nil)
 	if d0.HasErrors() || v0.Type() != cty.String || v0.AsString() != cty.NormalizeString(s) {
